@@ -3,6 +3,7 @@ package rules
 import (
 	"go/token"
 	"go/types"
+	"strings"
 
 	"golang.org/x/tools/go/ssa"
 
@@ -323,4 +324,39 @@ func openFileKind(call *ssa.Call) string {
 		return "Create"
 	}
 	return "OpenFile"
+}
+
+// recordField: v loads a field of a per-call record (a struct literal built once, e.g.
+// delivery{cap: s.cap}) whose field is stored exactly once in its package, into a freshly
+// allocated struct; the result is the value stored there. Anything else gives (nil, false).
+func recordField(p *eng.Prog, v ssa.Value) (ssa.Value, bool) {
+	f := eng.LoadedField(v)
+	if f == nil || f.Pkg() == nil || !strings.HasPrefix(f.Pkg().Path(), eng.Mod+"/") {
+		return nil, false
+	}
+	sts := eng.StoresToField(pkgFuncs(p, strings.TrimPrefix(f.Pkg().Path(), eng.Mod+"/")), f)
+	if len(sts) != 1 {
+		return nil, false
+	}
+	if _, fresh := sts[0].Addr.X.(*ssa.Alloc); !fresh {
+		return nil, false
+	}
+	return sts[0].Store.Val, true
+}
+
+// isLoadOfThroughRecords: v loads field f, possibly by way of per-call record fields the
+// value was parked in (see recordField).
+func isLoadOfThroughRecords(p *eng.Prog, v ssa.Value, f *types.Var) bool {
+	for i := 0; i < 3; i++ {
+		v = eng.StripConv(v)
+		if eng.SameField(eng.LoadedField(v), f) {
+			return true
+		}
+		w, ok := recordField(p, v)
+		if !ok {
+			return false
+		}
+		v = w
+	}
+	return false
 }
